@@ -123,7 +123,7 @@ def round (K : ConnOps κ) (routes : List (Route κ)) : Nat → RS → κ → Li
       match pass K routes 0 rs cx1 tr with
       | .stop tr' r => (tr', r)
       | .done rs' cx' tr' =>
-        if rs'.lm = routes.length then (tr', .next cx')
+        if rs'.lm = routes.length then (tr', .next (if rs'.lm = 0 then K.arm false cx' else cx'))   -- empty list: deadline cleared
         else if undecided rs' routes.length then round K routes f { rs' with needMore := true } cx' tr'
         else (tr', .next (K.arm false cx'))
 
